@@ -143,6 +143,7 @@ def make_unit():
             elif k == 'requires=': it['requires'] = v
             elif k == 'proof+': it['proof'] = list(it.get('proof', [])) + list(v)
             elif k == 'body_first+': it['body_first'] = (it.get('body_first', '') + '\n' + v).strip()
+            elif k == 'body_first^': it['body_first'] = (v + '\n' + it.get('body_first', '')).strip()
             elif k == 'loops=': it['loops'] = v
             elif k == 'loops+':
                 # one more invariant clause in loops of the base overlay (inserted after the `invariant` keyword)
